@@ -74,7 +74,9 @@ Record assertion := { a_strict : bool; a_l : operand; a_r : operand }.   (* l < 
 Record model := {
   m_limits : list (V * V);         (* (lower, upper) of every prior, in id order *)
   m_slots : list operand;          (* what the instance holds at each attribute path *)
-  m_asserts : list assertion       (* every assertion of every level *)
+  m_asserts : list assertion;      (* every assertion of every level *)
+  m_jax : bool                     (* environment, not composition: the process runs with USE_JAX=1, in which
+                                      Prior.assert_within_limits returns without checking *)
 }.
 Definition prior_count (m : model) : nat := length (m_limits m).
 
@@ -87,6 +89,7 @@ Fixpoint limits_ok (lims : list (V * V)) (vec : list V) : bool :=
   | (lo, hi) :: lims', v :: vec' => n_leb N lo v && n_leb N v hi && limits_ok lims' vec'
   | _, _ => true
   end.
+Definition limits_gate (m : model) (vec : list V) : bool := m_jax m || limits_ok (m_limits m) vec.
 Definition assert_ok (vec : list V) (a : assertion) : bool :=
   if a_strict a then n_ltb N (opval vec (a_l a)) (opval vec (a_r a))
   else n_leb N (opval vec (a_l a)) (opval vec (a_r a)).
@@ -97,7 +100,7 @@ Inductive exn := EAssertionError | EFit.     (* EFit: FitException, which PriorL
 (* AbstractPriorModel.instance_from_vector *)
 Definition instance_from_vector (m : model) (vec : list V) : list V + exn :=
   if negb (length vec =? prior_count m) then inr EAssertionError
-  else if negb (limits_ok (m_limits m) vec) then inr EFit
+  else if negb (limits_gate m vec) then inr EFit
   else if negb (forallb (assert_ok vec) (m_asserts m)) then inr EFit
   else inl (instance m vec).
 
@@ -143,7 +146,8 @@ Definition call_value (m : model) (L : lik) (lp : lprior) (fl : flags) (r : V) (
 (* ---------- histories: buffers live in a heap, the caller may overwrite them ---------- *)
 Inductive pentry := PRef (b : nat) | PVal (v : list V).
 Record state := { heap : list (list V); hist : list (pentry * V) }.
-Inductive op := OCall (b : nat) | OWrite (b : nat) (v : list V) | OBatch (bs : list nat).
+Inductive op := OCall (b : nat) | OWrite (b : nat) (v : list V) | OBatch (bs : list nat)
+              | OPickle.   (* fitness = pickle.loads(pickle.dumps(fitness)): what a pooled search does with it *)
 
 Fixpoint upd {A} (l : list A) (i : nat) (x : A) : list A :=
   match l, i with
@@ -152,6 +156,11 @@ Fixpoint upd {A} (l : list A) (i : nat) (x : A) : list A :=
   | h :: t, S j => h :: upd t j x
   end.
 Definition buf (h : list (list V)) (b : nat) : list V := nth b h [].
+
+(* pickling copies whatever the history refers to *)
+Definition snapshot (h : list (list V)) (e : pentry * V) : pentry * V :=
+  (match fst e with PRef b => PVal (buf h b) | PVal v => PVal v end, snd e).
+Definition pickled (st : state) : state := {| heap := heap st; hist := map (snapshot (heap st)) (hist st) |}.
 
 Definition stored_ll (I : impl) (fl : flags) (boxed : bool) (ll fom : V) : V :=
   if i_inplace I && boxed && fl_like fl && fl_chi2 fl then fom else ll.
@@ -175,6 +184,7 @@ Definition step (st : state) (o : op) : state * list res :=
           ({| heap := heap st; hist := h' |}, [Returned fom])
       end
   | OBatch _ => (st, [])
+  | OPickle => (pickled st, [])
   end.
 
 (* FitnessPySwarms.__call__: one particle; None = the exception leaves the whole call *)
@@ -214,6 +224,7 @@ Definition step_ps (st : state) (o : op) : state * list res :=
   | OBatch bs =>
       let '(h', out) := ps_batch (hist st) (map (buf (heap st)) bs) [] in
       ({| heap := heap st; hist := h' |}, out)
+  | OPickle => (pickled st, [])
   end.
 
 Fixpoint run_with (stp : state -> op -> state * list res) (st : state) (ops : list op) : state * list (list res) :=
@@ -258,6 +269,7 @@ Fixpoint trace (pyswarms : bool) (h : list (list V)) (ops : list op) : list (lis
   | OCall b :: rest => buf h b :: trace pyswarms h rest
   | OWrite b v :: rest => trace pyswarms (upd h b v) rest
   | OBatch bs :: rest => (if pyswarms then map (buf h) bs else []) ++ trace pyswarms h rest
+  | OPickle :: rest => trace pyswarms h rest
   end.
 Definition success (m : model) (L : lik) (vec : list V) : option (list V * V) :=
   match evaluate m L vec with EvOk ll _ => Some (vec, ll) | _ => None end.
@@ -280,6 +292,7 @@ Fixpoint spec_outputs (m : model) (L : lik) (lp : lprior) (fl : flags) (r : V) (
   | OCall b :: rest => [call_value m L lp fl r (buf h b)] :: spec_outputs m L lp fl r h rest
   | OWrite b v :: rest => [] :: spec_outputs m L lp fl r (upd h b v) rest
   | OBatch _ :: rest => [] :: spec_outputs m L lp fl r h rest
+  | OPickle :: rest => [] :: spec_outputs m L lp fl r h rest
   end.
 
 (* pyswarms: one figure of merit per particle, in particle order; no flag is consulted *)
@@ -289,6 +302,7 @@ Fixpoint spec_outputs_ps (m : model) (L : lik) (lp : lprior) (r : V) (h : list (
   | OCall b :: rest => [fst (ps_particle m L lp r (buf h b))] :: spec_outputs_ps m L lp r h rest
   | OWrite b v :: rest => [] :: spec_outputs_ps m L lp r (upd h b v) rest
   | OBatch bs :: rest => map (fun b => fst (ps_particle m L lp r (buf h b))) bs :: spec_outputs_ps m L lp r h rest
+  | OPickle :: rest => [] :: spec_outputs_ps m L lp r h rest
   end.
 
 (* guards of the partial theorems *)
@@ -315,7 +329,7 @@ End Model.
 
 Arguments OPrior {V}. Arguments OConst {V}. Arguments LRet {V}. Arguments LRaise {V}.
 Arguments Returned {V}. Arguments Escaped {V}. Arguments PRef {V}. Arguments PVal {V}.
-Arguments OCall {V}. Arguments OWrite {V}. Arguments OBatch {V}.
+Arguments OCall {V}. Arguments OWrite {V}. Arguments OBatch {V}. Arguments OPickle {V}.
 Arguments Build_assertion {V}. Arguments Build_model {V}. Arguments Build_state {V}.
 Arguments EvEsc {V}. Arguments EvResample {V}. Arguments EvOk {V}.
 
